@@ -128,7 +128,8 @@ func defectBlock(kind string, n int, r *Rand) string {
 		// a user type of every notation and shape (regex, any, scalar, array, null, empty object, a
 		// reference chain that ends in one of those, an ENUM name) referenced from every place that
 		// takes a type: most places assume an object written in the jsight notation
-		decl := []string{" regex\n  /ab+/", " any", "\n  1", "\n  \"s\"", "\n  [1, 2]", "\n  null", "\n  {}", "\n  @nmB%d", " empty", "\n  true // {nullable: true}", "\n  {\"id\": 1} // {additionalProperties: true}"}
+		decl := []string{" regex\n  /ab+/", " any", "\n  1", "\n  \"s\"", "\n  [1, 2]", "\n  null", "\n  {}", "\n  @nmB%d", " empty", "\n  true // {nullable: true}", "\n  {\"id\": 1} // {additionalProperties: true}",
+			"\n  @nmA%d // {nullable: true}", "\n  @nmB%d // {nullable: true}", " regex\n  /\\x01z/", " regex\n  /[\\x00-\\x1f]{2}/"}
 		d := decl[r.Intn(len(decl))]
 		if strings.Contains(d, "%d") {
 			d = fmt.Sprintf(d, n)
@@ -163,7 +164,11 @@ func defectBlock(kind string, n int, r *Rand) string {
 			"GET /znm%[1]d\n  200\n    {%[2]s: 1}\n",
 		}
 		for i := 0; i < r.Range(1, 2); i++ {
-			fmt.Fprintf(&sb, strings.Replace(uses[r.Intn(len(uses))], "znm%[1]d", fmt.Sprintf("znm%%[1]d_%d", i), -1), n, t)
+			ui := r.Intn(len(uses))
+			if r.Chance(1, 3) {
+				ui = r.Intn(4) // the Path directive is where most of the unchecked assumptions about types were found
+			}
+			fmt.Fprintf(&sb, strings.Replace(uses[ui], "znm%[1]d", fmt.Sprintf("znm%%[1]d_%d", i), -1), n, t)
 		}
 	case "path-bad-user-types":
 		fmt.Fprintf(&sb, "TYPE @pb%da\n  1 // {min: 5}\nTYPE @pb%db\n  1 // {min: 7}\nGET /zpb%d/{id}/{k}\n  Path\n    {\"id\": @pb%da, \"k\": @pb%db}\n  200 any\n", n, n, n, n, n)
@@ -280,6 +285,12 @@ func genDefects(r *Rand, n int) *Project {
 	p.Kind = "multi-defect"
 	if n == 1 {
 		p.Kind = "single-defect"
+		if r.Chance(1, 3) {
+			// nothing but the block: in a larger project another use of the same type or name may
+			// be refused first (an invalid regular expression is reported, as an ordinary error, as
+			// soon as any schema that mentions the type is loaded - which hid the panic of F22)
+			p = &Project{Kind: "single-defect", Root: "root.jst", Files: []GenFile{{Path: "root.jst", Data: []byte("JSIGHT 0.3\n")}}, Features: []string{"bare"}}
+		}
 	}
 	p.Valid = false
 	var kinds []string
